@@ -91,6 +91,8 @@ type FuncContract struct {
 	NoPanicOK bool // function has a recover handler; panics become edges
 	Lemmas    []Clause
 	Updates   []UpdateClause // exact memory effect: X[i] := v (evaluated in the pre-state)
+	Concurrent bool     // goroutine fragment: channel/go/lock operations are interference points
+	Stable     []string // heap fields / ghost state no other goroutine changes (rely condition)
 	AsmLabels map[string]*LoopContract // assembly: invariants by label
 	IsAsm     bool
 	AllocBound *Clause
@@ -582,6 +584,10 @@ func loadContractFile(file string, out map[string]*FuncContract) error {
 			cur.Pure = true
 		case "uses":
 			cur.Uses = append(cur.Uses, strings.Fields(rest)...)
+		case "concurrent":
+			cur.Concurrent = true
+		case "stable":
+			cur.Stable = append(cur.Stable, splitTopLevel(rest)...)
 		case "updates":
 			parts := strings.SplitN(rest, ":=", 2)
 			if len(parts) != 2 {
